@@ -14,7 +14,7 @@ P = {
  'C01': dict(
    text='Structural half only: the token state machine extracted from the IR of cfg_parse_internal (states 0-9 x token '
         'classes x option kinds) is compared with the reference grammar in spec/, state closure, the RESET/append '
-        'typestate and exhaustiveness of every dispatch on the option type. Also: a new context is complete before code that reads it runs (field REF sets), and the completed option is examined for CFGF_DEPRECATED on every way out of the name state. Values read back through getters are NOT decided. A multi section that is stored always gets a newly built instance (a repeated title replaces), an existing single section is kept (R1.11); under ignore-unknown the language is that of C12 (R1.10).',
+        'typestate and exhaustiveness of every dispatch on the option type. Also: a new context is complete before code that reads it runs (field REF sets), and the completed option is examined for CFGF_DEPRECATED on every way out of the name state. Values read back through getters are NOT decided. A multi section that is stored always gets a newly built instance (a repeated title replaces), an existing single section is kept (R1.11); under ignore-unknown the language is that of C12 (R1.10). The private copy of the schema carries every declared default over (R1.12 = C16 R16.1); every scan starts in the initial start condition (R1.13 = C08 R8.1).',
    note=TRUST + 'Decides acceptance shape and store/recurse actions per token, not the stored values.',
    tech='parser transition-table extraction by path-sensitive constant propagation over LLVM IR + table comparison',
    ref='DESIGN.md 2/C01',
@@ -24,7 +24,7 @@ P = {
         'is unreachable in every start condition (exact, from the DFA); no stdout writer; every process terminator reachable '
         'from a parse is a named justified exception; input-driven recursion is bounded; every returned token value is '
         'provably non-null; scratch-buffer writes sit inside the growth guard; every loop on the parse path makes progress. '
-        'General memory safety is not decided. The scanner reader repeats an empty read only after it has seen EINTR (R2.9); on the paths of a boolean option the value slot (possibly the application own 4-byte variable) is written through its 4-byte member only (R2.10).',
+        'General memory safety is not decided. The scanner reader repeats an empty read only after it has seen EINTR (R2.9); on the paths of a boolean option the value slot (possibly the application own 4-byte variable) is written through its 4-byte member only (R2.10). Writes into the option table of a free-form context lie inside what the reallocation on the same path made room for (R2.11); include stack writes are preceded by the depth test (R2.12).',
    note=TRUST + 'spec/terminators.allow.json and spec/recursion.allow.json carry one reviewed reason per exception.',
    tech='DFA reachability over flex tables + call-graph reachability + path-sensitive nullness over LLVM IR',
    ref='DESIGN.md 2/C02'),
@@ -39,14 +39,14 @@ P = {
  'C04': dict(
    text='Call-site discipline around strtol/strtod and the boolean word table: errno cleared before the call, no-digits, '
         'trailing-garbage and ERANGE tests each leading to diagnostic+failure, store only after all tests, radix constants per '
-        'prefix guard equal the reference table, boolean words and results equal the reference table. Every value token of a declared option reaches the conversion: the parser table equals the reference automaton for every flag combination (R4.9).',
+        'prefix guard equal the reference table, boolean words and results equal the reference table. Every value token of a declared option reaches the conversion: the parser table equals the reference automaton for every flag combination (R4.9). The bulk setter hands every token to the conversion beginning with the first (R4.10); the token handed on is the decoded token of the language (R4.11 = C03).',
    note=TRUST + 'strtol/strtod themselves are trusted; numeric results are not computed.',
    tech='path enumeration with must-precede / dominance rules at conversion call sites in LLVM IR',
    ref='DESIGN.md 2/C04'),
  'C05': dict(
    text='Writer/reader agreement only: every byte that opens a non-literal construct inside a double-quoted string according to '
         'the scanner DFA must be escaped by the value printer (from its IR), and every %s placed between quotes by a print format '
-        'must pass through the escaping writer. Output is analysed as a stdio-independent token stream (fprintf/fputs/fputc alike); the reader recognises the printed empty list (element counter). Round-trip equality of values is NOT decided. A number print conversion can only produce characters that stay inside one unquoted word of the scanner (R5.8); a section header carries a title exactly on the paths where the option has CFGF_TITLE, the reader criterion (R5.9).',
+        'must pass through the escaping writer. Output is analysed as a stdio-independent token stream (fprintf/fputs/fputc alike); the reader recognises the printed empty list (element counter). Round-trip equality of values is NOT decided. A number print conversion can only produce characters that stay inside one unquoted word of the scanner (R5.8); a section header carries a title exactly on the paths where the option has CFGF_TITLE, the reader criterion (R5.9). Strings are decoded by the reference table (R5.11 = C03) and every scan starts in the initial start condition (R5.10 = C08 R8.1).',
    note=TRUST + 'A necessary condition of the round trip, not the round trip.',
    tech='reader-special byte set from the DFA vs writer-escaped byte set from IR compare/branch structure',
    ref='DESIGN.md 2/C05',
@@ -55,42 +55,42 @@ P = {
    text='Every failing exit of the parser, of cfg_setopt and of the scanner actions is preceded on its path by a diagnostic '
         '(or is a callback veto / allocation failure, listed); no diagnostic lies on an accepting path; for every scanner rule the '
         'number of line increments on every action path equals the number of newlines the rule can match (DFA x counter); include '
-        'push/pop save and restore the same position fields. After a section body the parent takes over the line before anything can report in its name.',
+        'push/pop save and restore the same position fields. After a section body the parent takes over the line before anything can report in its name. Section entry hands the parent error function down like file name and line.',
    note=TRUST + 'Decides presence of a diagnostic and the line-count invariant, not the text of the message.',
    tech='path enumeration over IR (must-pass-through cfg_error) + DFA newline counting vs action line increments',
    ref='DESIGN.md 2/C06'),
  'C07': dict(
    text='Per-function ownership analysis on all paths: every allocation is released, returned or stored into memory that '
         'outlives the call on every exit; released owner fields are overwritten; section frees clear the shared search path; '
-        'aggregate copies do not duplicate ownership; the parse bracket unwinds the include stack on every exit.',
+        'aggregate copies do not duplicate ownership; the parse bracket unwinds the include stack on every exit. A string argument is duplicated before anything of the option is released (R7.8); what the duplicator creates the release function frees (R7.9).',
    note=TRUST + 'Exactly-once across sequences of API calls is not decided; only that no single function drops, double-releases or orphans what it holds.',
    tech='path-sensitive ownership/typestate analysis over LLVM IR',
    ref='DESIGN.md 2/C07'),
  'C08': dict(
    text='Global-state discipline: all mutable globals of both units are enumerated from the IR and each must be reset by the '
         'parse bracket or restored on every exit (start condition, include stack, buffer stack, scratch buffer); no other '
-        'mutable global exists in confuse.c. No decision of any function reads errno unless a value was stored into it first on that path (or the preceding call is known to have failed); the library writes only the state bits of an option flag word (R8.8); a refused include leaves the include stack as deep as it found it.',
+        'mutable global exists in confuse.c. No decision of any function reads errno unless a value was stored into it first on that path (or the preceding call is known to have failed); the library writes only the state bits of an option flag word (R8.8); a refused include leaves the include stack as deep as it found it. Replacing or removing a section never releases the borrowed search path (R8.9); += always clears the reset bit (R8.10).',
    note=TRUST + 'Shows there is no channel through which an earlier parse could influence a later one; does not compare outcomes.',
    tech='global-variable enumeration + must-pass-through reset rules over IR and lexer action summaries',
    ref='DESIGN.md 2/C08'),
  'C09': dict(
    text='Structural clauses: refusals of every public mutator come before any effect (empty MOD set on refusing paths); append '
         'entry points never reach the free-defaults branch with RESET still set; all title comparisons fold case from the same flag '
-        'word; results of failing internal setters are not dropped. Equivalence with an abstract store is NOT decided. Every access to a member of a value slot is preceded by a test of the option type for the matching enumerator (R9.10, found cfg_addtsec on a non-section option); no text setter reads ambient errno (R9.11).',
+        'word; results of failing internal setters are not dropped. Equivalence with an abstract store is NOT decided. Every access to a member of a value slot is preceded by a test of the option type for the matching enumerator (R9.10, found cfg_addtsec on a non-section option); no text setter reads ambient errno (R9.11). List calls touch the option only with CFGF_LIST shown (R9.13); by-name calls compare whole names (R9.12).',
    note=TRUST,
    tech='MOD-set effect analysis on failing paths + sibling cross-check over IR',
    ref='DESIGN.md 2/C09',
    na='equivalence with an abstract store over all call sequences is behavioural'),
  'C10': dict(
    text='Effect-before-refusal analysis: on every failing return path of the refusing calls the set of option-state locations '
-        'written so far is empty, or a restore block re-establishes each of them from a copy saved before the first effect. The refusals decided elsewhere are obligations here too: title existence (R9.3, R9.7 as R10.5), unresolvable paths (R11.2, R11.5, R11.7 as R10.6), type tests before member access (R10.7).',
+        'written so far is empty, or a restore block re-establishes each of them from a copy saved before the first effect. The refusals decided elsewhere are obligations here too: title existence (R9.3, R9.7 as R10.5), unresolvable paths (R11.2, R11.5, R11.7 as R10.6), type tests before member access (R10.7). cfg_opt_rmnsec() acts only after index < count without unsigned wrap (R10.8); the pre-set validator judges the value that is stored (R10.9).',
    note=TRUST + 'MOD sets are field-name based (over-approximate).',
    tech='bottom-up MOD summaries + exhaustive failing-path enumeration over IR',
    ref='DESIGN.md 2/C10'),
  'C11': dict(
    text='Single resolver (all by-name public API reaches the one leaf comparison through cfg_getopt_secidx), the resolver is '
         'pure, every cursor loop of the path tokenizer advances on every cycle, out-parameters are defined on every return. '
-        'Length-limited name comparisons need an end-of-name test; a read cursor steps only over bytes shown to differ from NUL; index qualifiers must be whole numerals. Agreement with stepwise navigation on instances is NOT decided. No resolver step reads ambient errno (R11.9); an unquoted qualifier ends exactly at the bytes skipped between steps (R11.10). The rules are anchored on the loop that looks a step up, in the resolver or in a helper split off it, or on self-recursion.',
+        'Length-limited name comparisons need an end-of-name test; a read cursor steps only over bytes shown to differ from NUL; index qualifiers must be whole numerals. Agreement with stepwise navigation on instances is NOT decided. No resolver step reads ambient errno (R11.9); an unquoted qualifier ends exactly at the bytes skipped between steps (R11.10). The rules are anchored on the loop that looks a step up, in the resolver or in a helper split off it, or on self-recursion. Length-limited name comparisons test the end of the declared name on the path where they say equal; a title search passes over untitled instances (R11.11).',
    note=TRUST,
    tech='call-graph rules + loop-progress analysis over IR',
    ref='DESIGN.md 2/C11',
@@ -98,7 +98,7 @@ P = {
  'C12': dict(
    text='The discard sub-parser (states 10-15) is extracted from the IR as a pushdown transition table and run over every '
         'well-formed unknown item the reference grammar derives up to the bound; each must end in "expecting a name" at the '
-        'original level with no error exit. Sections inherit the whole flag word of their context and the flags of a context are final before sections are created. Every skipper state must examine its token. Comments between the tokens of a skipped item are passed over in every skipper state (R12.9).',
+        'original level with no error exit. Sections inherit the whole flag word of their context and the flags of a context are final before sections are created. Every skipper state must examine its token. Comments between the tokens of a skipped item are passed over in every skipper state (R12.9). A name is declared only if it equals a declared name as a whole (R12.10); a token-reading helper that calls itself is reported (R12.4).',
    note=TRUST + 'Bounded enumeration of item shapes (nesting/width bounds in the evidence).',
    tech='automaton extraction by constant propagation over IR + exhaustive bounded check of the extracted model',
    ref='DESIGN.md 2/C12'),
@@ -113,7 +113,7 @@ P = {
  'C14': dict(
    text='Callback call sites are enumerated by the struct field the pointer is loaded from; at each the verdict must be tested '
         'and the non-zero arm must reach the failing return without further effect; exactly one parse-callback per stored value '
-        'with the token text; validation after every store before the loop back edge; The argument buffer is emptied after each function call; registration by path reaches the section template, not one instance. pre-set veto dominates the store. Nothing between the store and the validation callback can take the value away again; the pre-set validator is passed over only when there is none.',
+        'with the token text; validation after every store before the loop back edge; The argument buffer is emptied after each function call; registration by path reaches the section template, not one instance. pre-set veto dominates the store. Nothing between the store and the validation callback can take the value away again; the pre-set validator is passed over only when there is none. The verdict of a function callback comes out of call_function() unchanged in sign (R14.1); what a parse callback returns is copied before anything is released (R14.9).',
    note=TRUST,
    tech='indirect-call-site enumeration + path rules over IR',
    ref='DESIGN.md 2/C14'),
@@ -127,14 +127,14 @@ P = {
  'C16': dict(
    text='Deep-copy completeness as a three-way agreement derived from the code: pointer members of the option record (layout) = '
         'fields the duplicator re-creates = fields the release function frees; every store to a context\'s option array takes its value '
-        'from the duplicator; After a raw copy of a caller record every owned member ends as NULL or a duplicate of the same member (per path), and is neutralised before the first fallible call. the caller\'s array does not escape. A context flag word, inherited wholesale by every section created in it, is written only while the context is being built (R16.6).',
+        'from the duplicator; After a raw copy of a caller record every owned member ends as NULL or a duplicate of the same member (per path), and is neutralised before the first fallible call. the caller\'s array does not escape. A context flag word, inherited wholesale by every section created in it, is written only while the context is being built (R16.6). A member of the copy is NULL only where the caller record has NULL; the option table grows before it is written (R16.8); sections are removed by the removal API only (R16.9).',
    note=TRUST + 'Function pointers and the simple-value user pointer are shared by design (spec/).',
    tech='record-layout vs dup/free field-set agreement over IR',
    ref='DESIGN.md 2/C16'),
  'C17': dict(
    text='Code-shape clauses: every non-null return of the search is dominated by the regular-file test on the returned pointer and '
         'is a fresh allocation; absolute names skip directory joining; heap buffers handed to string consumers are NUL-terminated '
-        'on all paths; prepend-and-recurse-first ordering discipline. Buffer sizes/termination by linear length algebra; getpwnam() receives exactly the text between the tilde and the rest. File-system outcomes are NOT decided. getpwnam() is reached only when the character after the tilde was shown to be neither the terminator nor a slash (R17.10).',
+        'on all paths; prepend-and-recurse-first ordering discipline. Buffer sizes/termination by linear length algebra; getpwnam() receives exactly the text between the tilde and the rest. File-system outcomes are NOT decided. getpwnam() is reached only when the character after the tilde was shown to be neither the terminator nor a slash (R17.10). The whole sequence of resolution calls agrees between parse and include; a successful cfg_add_searchpath() has linked the directory (R17.11).',
    note=TRUST,
    tech='dominance + terminated-buffer dataflow over IR',
    ref='DESIGN.md 2/C17',
@@ -142,14 +142,14 @@ P = {
  'C18': dict(
    text='Error discipline over all allocation sites of confuse.c: result null-checked before use, no x = realloc(x), the null arm '
         'releases what the function acquired and reaches a failing return, failures propagated by callers, no terminator on an '
-        'allocation-failure path. A callee that fails (allocation failure included) after the caller started to change the option finds a complete revert (R18.7); a failing include unwinds like any refused include (R18.8).',
+        'allocation-failure path. A callee that fails (allocation failure included) after the caller started to change the option finds a complete revert (R18.7); a failing include unwinds like any refused include (R18.8). Unwinding never releases a borrowed search path (R18.9).',
    note=TRUST + 'Deliberately ignored results are a frozen list with reasons.',
    tech='allocation-site enumeration + path-sensitive check/unwind/propagate rules over IR',
    ref='DESIGN.md 2/C18'),
  'C19': dict(
    text='Structural clauses: the per-option printer is called only from the single array-order loop; skip condition is exactly '
         'filter-non-null and filter-returns-non-zero; nested calls receive the effective filter and indent+1; each built-in value '
-        'writer call sits on the null arm of the print-callback test. Only the setter writes the filter of a context; every scalar print path decides whether a value exists. Exact text is NOT decided. The built-in value formatter reaches no user callback (R19.9).',
+        'writer call sits on the null arm of the print-callback test. Only the setter writes the filter of a context; every scalar print path decides whether a value exists. Exact text is NOT decided. The built-in value formatter reaches no user callback (R19.9). The filter answer is read by a zero test only; a section body is printed only for an instance shown to exist.',
    note=TRUST,
    tech='call-site / argument-provenance rules over IR',
    ref='DESIGN.md 2/C19',
